@@ -316,7 +316,7 @@ def finish(pid, spec, tier, seed, t0, audit, runs, nviol, notes, extra):
         cov["contract_statement_coverage"] = csum
         cov["contract_statement_coverage_note"] = ("sequence points (source statements) of the contracts compiled from the working tree that the corpus and "
                                                    "generated operations of this run executed on the VM; per-line detail in reports/coverage/%s.txt" % pid)
-        if nviol == 0:
+        if nviol == 0 and os.path.realpath(C.REPO) == "/repo":
             os.makedirs(os.path.join(C.VERIF, "reports", "coverage"), exist_ok=True)
             open(os.path.join(C.VERIF, "reports", "coverage", pid + ".txt"), "w").write(
                 "# %s %s tier, seed %s: contract statements NOT executed by the correspondence run, by function\n%s" % (pid, tier, seed, cdetail))
